@@ -1753,6 +1753,9 @@ class PyCdlib:
                 if enc.platform_id == 0xef:
                     # A hybrid made without EFI (or Mac) support has no
                     # partition for the image; it is only an El Torito one.
+                    # The same goes for any EFI image after the second one;
+                    # El Torito allows any number of them, but the hybrid MBR
+                    # and GPT only have the EFI and the Mac partition.
                     if num_seen_efi == 0:
                         if self.isohybrid_mbr.efi:
                             self.isohybrid_mbr.update_efi(entry_extent,
@@ -1762,8 +1765,6 @@ class PyCdlib:
                         if self.isohybrid_mbr.mac:
                             self.isohybrid_mbr.update_mac(entry_extent,
                                                           enc.entry.sector_count)
-                    else:
-                        raise pycdlibexception.PyCdlibInternalError('Only expected two EFI sections')
                     num_seen_efi += 1
 
         for ino in pvd_files + joliet_files + udf_files:
